@@ -95,11 +95,13 @@ def check_stored(case, specs, db, rep, res):
     (a failure, or nothing more to judge), else (features, in_domain)"""
     lines = case["input"]
     if db is None:
-        common.fail(res, case, "create_db_raised", "create_db raised on a well-formed file: " + rep, error=rep, observed=rep)
+        common.fail(res, case, "create_db_raised",
+                    "create_db raised on a well-formed file: " + rep, error=rep, observed=rep)
         return None
     feats = list(db.all_features())
     if len(feats) != len(specs):
-        common.fail(res, case, "feature_count", "not one stored feature per input line", observed=len(feats), expected=len(specs))
+        common.fail(res, case, "feature_count",
+                    "not one stored feature per input line", observed=len(feats), expected=len(specs))
         return None
     want_d = C09.spec_dialect(specs[0])
     voted = db.dialect
@@ -113,11 +115,13 @@ def check_stored(case, specs, db, rep, res):
     for s, f, line in zip(specs, feats, lines):
         cols, extra, attrs = feature_obs(f)
         if cols != list(s.cols) or extra != list(s.extra):
-            common.fail(res, case, "columns_differ", "columns / extra columns of a stored feature differ from the input line",
+            common.fail(res, case, "columns_differ",
+                        "columns / extra columns of a stored feature differ from the input line",
                         line=line, observed=str(f))
             return None
         if in_domain and attrs != [(k, list(v)) for k, v in s.attrs]:
-            common.fail(res, case, "attributes_differ", "attribute keys/values of a stored feature differ from the input line",
+            common.fail(res, case, "attributes_differ",
+                        "attribute keys/values of a stored feature differ from the input line",
                         line=line, observed=attrs, expected=[(k, list(v)) for k, v in s.attrs])
             return None
         if in_domain and str(f) != line:
@@ -146,7 +150,8 @@ def check_reimports(ctx, case, db, dbfn, cfg, feats, in_domain, res):
         path2 = dbside.write_lines(os.path.join(ctx.scratch, "c01b." + case["ext"]), ["##gff-version 3"] + printed)
         db3, rep3 = dbside.py_create(path2, cfg, checklines=cl)
         if db3 is None or dbside.dump(db3) != dbside.dump(db):
-            common.fail(res, case, "reimport_printed_differs", "re-importing the printed features does not give an equivalent database",
+            common.fail(res, case, "reimport_printed_differs",
+                        "re-importing the printed features does not give an equivalent database",
                         reimport=rep3, printed=printed)
     # ... and re-importing the features themselves (FeatureDB / one-shot generator input; more than checklines
     # features go through the dialect peek of the feature iterator)
@@ -163,7 +168,8 @@ def check_reimports(ctx, case, db, dbfn, cfg, feats, in_domain, res):
                 p4 = "raised %r" % ex
             res.evaluations += 1
             if p4 != printed:
-                common.fail(res, case, "reimport_features_differs", "re-importing the features (as %s) does not give an equivalent database" % form,
+                common.fail(res, case, "reimport_features_differs",
+                            "re-importing the features (as %s) does not give an equivalent database" % form,
                             form=form, observed=p4 if isinstance(p4, str) else len(p4), expected=len(printed))
 
 
@@ -219,7 +225,8 @@ def run(ctx):
         db, rep, cfg, dbfn = import_file(ctx, case, "c01_%d.db" % fi)
         res.evaluations += 1
         inp = {"lines": lines, "checklines": cl, "dbfn": "memory" if mem else "file"}
-        ccase = {"scenario": "file", "input": lines, "checklines": cl, "dbfn": inp["dbfn"], "ext": case["ext"], "config": case["config"]}
+        ccase = {"scenario": "file", "input": lines, "checklines": cl, "dbfn": inp["dbfn"], "ext": case["ext"],
+                 "config": case["config"]}
         c1, e1, t1 = corr_commands(db, rep, ["##gff-version 3"] + lines, cfg, cl, "")
         cmds += c1[:1]; exp += e1[:1]; tags += [(t, ccase) for t in t1[:1]]
         st = check_stored(case, specs, db, rep, res)
@@ -261,7 +268,8 @@ def run(ctx):
             cmds.append("q " + dbside.cmd_query()); exp.append("ok " + pyside.enc_list([f.id for f in feats]))
             tags.append(("all_features order (data file)", dcase))
             for f in feats[: 5]:
-                cmds.append("get " + enc(f.id)); exp.append("ok " + pyside.enc_feature(f)); tags.append(("db[id] (data file)", dcase))
+                cmds.append("get " + enc(f.id)); exp.append("ok " + pyside.enc_feature(f))
+                tags.append(("db[id] (data file)", dcase))
     res.count("data_files", nfiles)
     out = ctx.model(cmds)
     if out is not None:
@@ -295,7 +303,18 @@ def corr_case(ctx, ccase):
     out = ctx.model(cmds)
     if out is None:
         raise common.Infra("the model driver is not available: the correspondence cannot be replayed")
-    return [(comp, m[:500], e[:500]) for comp, m, e in zip(comps, out, exp) if m != e]
+    return [(comp, m, e) for comp, m, e in zip(comps, out, exp) if m != e]
+
+
+def first_difference(m, e):
+    """the first differing word of two protocol replies, decoded where it is an encoded string"""
+    for a, b in zip(m.split(" "), e.split(" ")):
+        if a != b:
+            try:
+                return "model %r, impl %r" % (dec(a), dec(b))
+            except Exception:
+                return "model %s, impl %s" % (a[:300], b[:300])
+    return "model reply has %d words, impl reply %d" % (len(m.split(" ")), len(e.split(" ")))
 
 
 def shrink_first_disagreement(ctx, res):
@@ -313,7 +332,8 @@ def shrink_first_disagreement(ctx, res):
         return bool(d)
     small = common.shrink_lines(inp["input"], still_differs)
     if best[0] is not None and len(small) < len(inp["input"]):
-        res.corr_disagreements[0] = (comp, dict(inp, input=small, input_unshrunk=inp["input"], shrunk=True), best[0][1], best[0][2])
+        res.corr_disagreements[0] = (comp, dict(inp, input=small, input_unshrunk=inp["input"], shrunk=True),
+                                     best[0][1][:500], best[0][2][:500])
 
 
 def replay(ctx, payload):
@@ -338,10 +358,10 @@ def replay(ctx, payload):
         diff = corr_case(ctx, inp)
         res.corr_checked = 1
         for comp, m, e in diff:
-            print("replay:   now %s: model %s" % (comp, m[:300]))
-            print("replay:   now %s: impl  %s" % (comp, e[:300]))
-            res.corr_disagreements.append((comp, inp, m, e))
-        print("replay: verdict: model and real code %s on this input (%s)" % ("differ" if diff else "agree", common.repo_dir()))
+            print("replay:   now %s differs: %s" % (comp, first_difference(m, e)))
+            res.corr_disagreements.append((comp, inp, m[:500], e[:500]))
+        print("replay: verdict: model and real code %s on this input (%s)"
+              % ("differ" if diff else "agree", common.repo_dir()))
         break
     else:
         print("replay: nothing replayable in this file")
